@@ -17,6 +17,12 @@
 //     pooled Metric and its tag buffer is reused; then every dispatched map and event is
 //     rendered again and compared with its rendering at dispatch time;
 //   - the parser goroutine panicked or stopped taking batches.
+//
+// Stream "lexseq": ONE real lexer (verifhooks.LineLexer: a Lexer with its own MetricPool) is
+// handed line after line (tagged metric then event, event then metric, rejected lines in between,
+// changing namespaces); accepted metrics are returned to the pool after every field has been
+// overwritten with stale values, as parser and MetricMap leave them.  The (metric, event, error)
+// triple of every call is compared in lock-step with the stateful model LexState.run_line.
 package main
 
 import (
@@ -33,6 +39,7 @@ import (
 	"github.com/atlassian/gostatsd"
 	"github.com/atlassian/gostatsd/pkg/statsd"
 	"github.com/atlassian/gostatsd/pkg/stats"
+	"github.com/atlassian/gostatsd/verifhooks"
 	"github.com/sirupsen/logrus"
 
 	"verifharness/hlib"
@@ -51,6 +58,8 @@ type lineIn struct {
 	TS    int64  `json:"ts,omitempty"`    //   "
 	Off   int    `json:"off,omitempty"`   // padding in front of the datagram in the arena
 	Slack int    `json:"slack,omitempty"` // spare bytes behind it
+	NS    string `json:"lns,omitempty"`   // stream lexseq: namespace of this Lexer.Run call
+	Put   bool   `json:"put,omitempty"`   // stream lexseq: an accepted metric goes back to the pool (with stale fields)
 }
 
 type input struct {
@@ -279,6 +288,10 @@ func oracleCands(line string, cands map[string]bool) {
 }
 
 func runOne(em *hlib.Emitter, in input) {
+	if in.Stream == "lexseq" {
+		runLexSeq(em, in)
+		return
+	}
 	batches := assemble(in)
 	c := hlib.Case{Input: in}
 	scr := hlib.NewRand(in.Scramble ^ 0x5ca1ab1e)
@@ -707,6 +720,171 @@ func genCase(r *hlib.Rand, tier string, idx int) input {
 	return in
 }
 
+// ---------------------------------------------------------------------------------------
+// stream lexseq
+
+func pmCoq(m *gostatsd.Metric) string {
+	ty := "None"
+	if n, ok := mmgen.TypeNames[m.Type]; ok {
+		ty = "(Some " + n + ")"
+	}
+	return hlib.App("PM", hlib.Bytes(m.Name), hlib.F64(m.Value), hlib.F64(m.Rate), hlib.StrList(m.Tags), hlib.Bytes(m.TagsKey),
+		hlib.Bytes(m.StringValue), hlib.Bytes(string(m.Source)), hlib.Z(int64(m.Timestamp)), ty)
+}
+
+func runLexSeq(em *hlib.Emitter, in input) {
+	c := hlib.Case{Input: in, Class: "lexseq"}
+	ll := verifhooks.NewLineLexer(in.EstTags)
+	scr := hlib.NewRand(in.Scramble ^ 0x5e9)
+	cands := map[string]bool{}
+	var steps []string
+	var pool []string // Coq terms of the metrics put back, most recent last
+	type held struct {
+		m    *gostatsd.Metric
+		e    *gostatsd.Event
+		text string
+		step int
+	}
+	var kept []held
+	nMetric, nEvent, nReject := 0, 0, 0
+	var obs []string
+	for i, l := range in.Lines {
+		line := lexgen.FromInts(l.B)
+		oracleCands(line, cands)
+		buf := []byte(line)
+		poolTerm := "None"
+		takes := len(line) > 0 && line[0] != '_' && line[0] != 0 // lexSpecial calls MetricPool.Get
+		if takes && len(pool) > 0 {
+			poolTerm = "(Some " + pool[len(pool)-1] + ")"
+			pool = pool[:len(pool)-1]
+		}
+		var m *gostatsd.Metric
+		var e *gostatsd.Event
+		var err error
+		msg := hlib.Recover(func() { m, e, err = ll.LexLine(buf, l.NS) })
+		var o string
+		switch {
+		case msg != "":
+			o = "SOPanic"
+			c.Monitors = append(c.Monitors, fmt.Sprintf("step %d: lexer panicked: %s", i, msg))
+		default:
+			mt, et := "None", "None"
+			if m != nil {
+				mt = "(Some " + pmCoq(m) + ")"
+			}
+			if e != nil {
+				et = "(Some " + eventCoq(e) + ")"
+			}
+			o = hlib.App("SO", mt, et, hlib.Bool(err != nil))
+			switch {
+			case err != nil:
+				nReject++
+			case m != nil:
+				nMetric++
+			case e != nil:
+				nEvent++
+			}
+		}
+		obs = append(obs, o)
+		steps = append(steps, hlib.App("LStep", hlib.Bytes(l.NS), poolTerm, hlib.Bytes(line), o))
+		// the line's buffer is recycled at once
+		for j := range buf {
+			buf[j] = byte(scr.U64())
+		}
+		if msg != "" {
+			break // the lexer's state after a panic is not defined
+		}
+		if err == nil && m != nil {
+			if l.Put {
+				// what parser and MetricMap.Receive leave in a metric before Done()
+				m.Source = gostatsd.Source(fmt.Sprintf("stale-src-%d", i))
+				m.Timestamp = gostatsd.Nanotime(1000 + i)
+				m.Tags = append(m.Tags, fmt.Sprintf("stale:%d", i))
+				_ = m.FormatTagsKey()
+				m.Value = 77 + float64(i)
+				pool = append(pool, pmCoq(m))
+				m.Done()
+			} else {
+				kept = append(kept, held{m: m, text: pmCoq(m), step: i})
+			}
+		}
+		if err == nil && e != nil {
+			kept = append(kept, held{e: e, text: eventCoq(e), step: i})
+		}
+	}
+	// results that were not given back must not change when later lines are lexed
+	for _, h := range kept {
+		now := ""
+		if h.m != nil {
+			now = pmCoq(h.m)
+		} else {
+			now = eventCoq(h.e)
+		}
+		if now != h.text {
+			c.Monitors = append(c.Monitors, fmt.Sprintf("aliasing: result of step %d changed while later lines were lexed: %s", h.step, firstDiff(h.text, now)))
+		}
+	}
+	var tab []string
+	for s := range cands {
+		tab = append(tab, hlib.Pair(hlib.Bytes(s), lexgen.PF(s)))
+	}
+	sort.Strings(tab)
+	c.Coq = hlib.App("LexSeq", hlib.List(tab), hlib.List(steps))
+	c.Obs = map[string]int{"steps": len(steps), "metrics": nMetric, "events": nEvent, "rejected": nReject}
+	c.Nontrivial = len(steps) >= 3 && nMetric >= 1 && (nEvent >= 1 || nReject >= 1)
+	em.Emit(c)
+}
+
+var seqLines = []string{
+	"a:1|c|#x,y", "a:1|c|#x,y", "b.c:2|g", "t:3|ms|@0.5", "t:3|ms|@0.5|#q", "s:member|s", "s:m2|s|#k:v", "h:4|h|#host:h1,z",
+	"_e{1,1}:t|x", "_e{1,1}:t|x", "_e{5,4}:title|text|#p,q", "_e{2,3}:ab|cde|d:77|h:hh|p:low|t:error|k:agg|s:src", "_e{0,0}:|",
+	"bad", "a:1|c|#x,y|@zz", "a:1|c|@0.5|#u|zz|@", "_e{3,3}:abc|de", "_e{9,1}:abcdefghi|j|#p,q|p:bad", "_e{1,1}:t|x|#m,n|t:zz", "a:1|zz", ":1|c", "!!:1|c",
+	"", "\x00", "_", "_x", "a:nan|g", "a:1|c|@0",
+}
+
+func genLexSeq(r *hlib.Rand) input {
+	in := input{EstTags: r.Intn(6), Scramble: r.U64(), Stream: "lexseq"}
+	n := r.Range(2, 10)
+	add := func(s string) {
+		in.Lines = append(in.Lines, lineIn{B: lexgen.ToInts(s), NS: hlib.Pick(r, namespaces), Put: r.Chance(3, 5)})
+	}
+	// the orders the property is about, then a random tail
+	switch r.Intn(6) {
+	case 0: // event after tagged metric
+		add("m.tagged:1|c|#t1,t2")
+		add(hlib.Pick(r, []string{"_e{1,1}:t|x", "_e{2,2}:ab|cd|#own"}))
+	case 1: // metric after tagged event
+		add("_e{2,2}:ab|cd|#e1,e2")
+		add(hlib.Pick(r, []string{"m:1|c", "m:1|c|#own", "m:x|s"}))
+	case 2: // rejected line in between, after it had appended tags / set lengths / a rate
+		add(hlib.Pick(r, []string{"m:1|c|#t1,t2", "_e{2,2}:ab|cd|#e1"}))
+		add(hlib.Pick(r, []string{"a:1|c|#x,y|@zz", "_e{9,1}:abcdefghi|j|#p,q|p:bad", "a:1|c|@0.25|#u|", "_e{7,7}:abc|de"}))
+		add(hlib.Pick(r, []string{"_e{1,1}:t|x", "m:2|g", "s:v|s"}))
+	case 3: // a sampled metric, then one without a rate; a set after a counter (Value / StringValue)
+		add("t:5|ms|@0.125|#r")
+		add("t:6|ms")
+		add("s:abc|s")
+		add("c:9|c")
+	}
+	for len(in.Lines) < n {
+		switch k := r.Intn(10); {
+		case k < 6:
+			add(hlib.Pick(r, seqLines))
+		case k < 7:
+			add(lexgen.MetricLine(r))
+		case k < 8:
+			add(lexgen.EventLine(r, r.Bool()))
+		case k < 9:
+			l, _ := lexgen.Line(r, "malformed")
+			add(l)
+		default:
+			l, _ := lexgen.Line(r, "hostile")
+			add(l)
+		}
+	}
+	return in
+}
+
 func main() {
 	a := hlib.ParseArgs()
 	em := hlib.NewEmitter()
@@ -715,6 +893,10 @@ func main() {
 	case "gen":
 		r := hlib.NewRand(a.Seed)
 		for i := 0; i < a.N; i++ {
+			if i%4 == 3 {
+				runOne(em, genLexSeq(r.Fork()))
+				continue
+			}
 			runOne(em, genCase(r.Fork(), a.Tier, i))
 		}
 	case "run":
